@@ -114,6 +114,101 @@ theorem fresh_view_no_early_release (log0 : List Tr) (src : Nat) (toks : List (N
   simp only [hfirst, Bool.false_eq_true, if_false]
   rw [join_waits _ a fired q hq p [a] (by simpa using hC) (by simpa using hnd) (by simp)]
 
+/-! ### D42 in the tracker's terms: why a token that ends WITHOUT a termination trace blocks every later activation
+
+`hclean` above is not a technicality. A token `z` that is still recorded with the fork as its origin — it ended by an error
+answer whose handler says exit (or by a used-up retry budget) and, before the repair of D42, sent no `TerminationTrace` — is
+in the cohort of every token of the fork's NEXT activation, and since it never arrives the join never fires. A termination
+trace removes it. -/
+
+/-- a token left over from an earlier activation is in the cohort of every token of the next one -/
+theorem stale_token_in_cohort (log0 : List Tr) (src : Nat) (toks : List (Nat × Nat)) (z a : Nat)
+    (hz : (track log0).get? z = some src) (hzn : z ∉ toks.map (·.1)) (ha : a ∈ toks.map (·.1)) :
+    z ∈ cohort (track (log0 ++ [.flow src true toks])) a := by
+  have hk := nodupKeys_track (log0 ++ [.flow src true toks])
+  have htr : track (log0 ++ [.flow src true toks]) = step (track log0) (.flow src true toks) := by
+    simp [track, List.foldl_append]
+  rw [mem_cohort _ hk, htr]
+  simp only [get?_step_flow_incl, ha, hzn, if_true, if_false, Option.some.injEq, exists_eq_left']
+  exact hz
+
+/-- **… and the join of that activation never fires**: all tokens of the new activation arrive (any order, the tracker
+caught up), the stale one never does — nothing is released. -/
+theorem stale_token_blocks_join (log0 : List Tr) (src : Nat) (toks : List (Nat × Nat)) (z a : Nat) (rest : List Nat)
+    (hz : (track log0).get? z = some src) (hzn : z ∉ toks.map (·.1))
+    (hclean : ∀ x, (track log0).get? x = some src → x = z ∨ x ∈ toks.map (·.1))
+    (harr : ∀ x, x ∈ a :: rest ↔ x ∈ toks.map (·.1)) (hnd : (a :: rest).Nodup) (fired : List (List Nat)) :
+    (({ fired := fired } : Join).arriveAllFresh (log0 ++ [.flow src true toks]) (a :: rest)) =
+      { activated := some a, arrived := a :: rest, fired := fired } := by
+  rw [arriveAllFresh_eq]
+  have ha : a ∈ toks.map (·.1) := (harr a).mp (by simp)
+  have hza : z ∉ a :: rest := fun h => hzn ((harr z).mp h)
+  have hC : ∀ x, x ∈ cohort (track (log0 ++ [.flow src true toks])) a ↔ x ∈ [a] ++ rest ++ [z] := by
+    intro x
+    have hk := nodupKeys_track (log0 ++ [.flow src true toks])
+    have htr : track (log0 ++ [.flow src true toks]) = step (track log0) (.flow src true toks) := by
+      simp [track, List.foldl_append]
+    rw [mem_cohort _ hk, htr]
+    simp only [get?_step_flow_incl, ha, if_true, Option.some.injEq, exists_eq_left']
+    by_cases hx : x ∈ toks.map (·.1)
+    · simp only [hx, if_true, true_iff]
+      have := (harr x).mpr hx
+      simp only [List.mem_cons] at this
+      simp only [List.singleton_append, List.mem_append, List.mem_cons, List.mem_singleton, List.not_mem_nil, or_false]
+      rcases this with h | h
+      · exact Or.inl (Or.inl h)
+      · exact Or.inl (Or.inr h)
+    · simp only [hx, if_false]
+      constructor
+      · intro h
+        rcases hclean x h with e | e
+        · subst e; simp
+        · exact absurd e hx
+      · intro h
+        have : x = z := by
+          have hx' : x ∉ a :: rest := fun h' => hx ((harr x).mp h')
+          simp only [List.singleton_append, List.mem_append, List.mem_cons, List.mem_singleton, List.not_mem_nil,
+            or_false] at h
+          rcases h with h | h
+          · exact absurd (List.mem_cons.mpr h) hx'
+          · exact h
+        subst this; exact hz
+  simp only [Join.arriveAllM, Join.arriveM, Join.trySync]
+  have hfirst : ((cohort (track (log0 ++ [.flow src true toks])) a).all fun x => [a].contains x) = false := by
+    rw [List.all_eq_false]
+    refine ⟨z, (hC z).mpr (by simp), ?_⟩
+    intro hc
+    have : z = a := by simpa using hc
+    exact hza (by simp [this])
+  simp only [hfirst, Bool.false_eq_true, if_false]
+  have hnd' : ([a] ++ rest ++ [z]).Nodup := by
+    have : (a :: rest).Nodup := hnd
+    simp only [List.singleton_append, List.nodup_append, List.nodup_cons, List.mem_cons, List.nodup_nil,
+      List.mem_singleton, List.not_mem_nil] at this ⊢
+    refine ⟨this, by simp, ?_⟩
+    intro x hx y hy
+    have hy' : y = z := by simpa using hy
+    subst hy'
+    intro e; subst e
+    exact hza (by simpa using hx)
+  have := join_waits _ a fired [z] (by simp) rest [a] (by simpa using hC) hnd' (by simp)
+  simpa using this
+
+/-- the termination trace is what takes the token out of the picture -/
+theorem term_cleans (log0 : List Tr) (z : Nat) : (track (log0 ++ [.term z])).get? z = none := by
+  have htr : track (log0 ++ [.term z]) = (track log0).del z := by simp [track, List.foldl_append, step]
+  rw [htr]
+  unfold Map.del Map.get?
+  induction track log0 with
+  | nil => rfl
+  | cons p m ih =>
+    by_cases h : p.1 = z
+    · simp [List.filter, h, ih]
+    · have hb : (p.1 != z) = true := by simpa using h
+      have hb2 : (z == p.1) = false := by simpa using fun e : z = p.1 => h e.symm
+      simp only [List.filter, hb, List.lookup, hb2]
+      exact ih
+
 /-- **The tracker's start-up lock** (`reachedNode`): the gateway can read the map only once the tracker has seen a flow
 INTO the gateway. If the only such `FlowTrace` so far is the one at position `i` (first activation: the trace that
 announces the arriving token), the picture the gateway reads contains it. -/
@@ -170,5 +265,23 @@ example : (∀ x, (track (loopLog.take 5)).get? x = some 6 → x ∈ [(2, 7), (3
   rw [this] at hx
   simp [Map.get?, List.lookup] at hx
   split at hx <;> simp_all
+
+/-- the history of D42 as the tracker sees it: fork `6` announces tokens 1 → task `4`, 2 → join `7`; task 4's token ends
+by an error answer (exit). Before the repair nothing is traced for it (`exitSilent`); after it, `term 1` is. Token 2 is
+released… and the next round's tokens 2, 3 are announced by the fork. -/
+def exitLog (traced : Bool) : List Tr :=
+  [.flow 6 true [(1, 4), (2, 7)]] ++ (if traced then [.term 1] else []) ++
+  [.flow 8 false [(2, 6)], .flow 6 true [(2, 7), (3, 7)]]
+
+/-- **D42, concretely** (a test, by `decide`): with the silent ending the second activation's join holds both tokens for
+ever; with the termination traced it fires. The general statement is `stale_token_blocks_join`. -/
+theorem C05_counterexample_silent_exit :
+    (({} : Join).arriveAllFresh (exitLog false) [2, 3]).fired = [] ∧
+    (({} : Join).arriveAllFresh (exitLog true) [2, 3]).fired = [[2, 3]] := by
+  decide
+
+/-- the hypotheses of `stale_token_blocks_join` are met by `exitLog false` (non-vacuity) -/
+example : (track ((exitLog false).take 2)).get? 1 = some 6 ∧ (1 : Nat) ∉ [(2, 7), (3, 7)].map (·.1) ∧
+    exitLog false = (exitLog false).take 2 ++ [.flow 6 true [(2, 7), (3, 7)]] := by decide
 
 end Bpmn.Props.C05
